@@ -3,6 +3,9 @@ import os, sys, time
 from . import core
 
 
+GENERATED = [("c03", "C03Chain")]
+
+
 def harness_names():
     root = os.path.join(core.VERIF, "go", "overlay", "internal", "verif")
     out = []
@@ -21,6 +24,11 @@ def model_names():
 def main():
     t0 = time.time()
     rc = 0
+    for what, vname in GENERATED:
+        ok, changed, log = core.generate(what, vname)
+        print("[setup] generate %s: %s" % (vname, "ok" if ok else "FAILED " + log), flush=True)
+        if not ok:
+            rc = 1
     ok, out, cmd = core.coq_make()
     print("[setup] coq build:", "ok" if ok else "FAILED", "%.0fs" % (time.time() - t0), flush=True)
     if not ok:
@@ -30,13 +38,6 @@ def main():
         ok, log, _ = core.ocaml_build(n)
         print("[setup] model %s: %s" % (n, "ok" if ok else "FAILED"), flush=True)
         if not ok:
-            print(log[-3000:])
-            rc = 1
-    tr = os.path.join(core.VERIF, "go", "translator")
-    if os.path.exists(os.path.join(tr, "go.mod")):
-        r, log = core.sh(["go", "build", "-o", os.path.join(core.BIN, "translator"), "."], cwd=tr, env=core.goenv())
-        print("[setup] translator:", "ok" if r == 0 else "FAILED", flush=True)
-        if r != 0:
             print(log[-3000:])
             rc = 1
     for n in harness_names():
